@@ -18,7 +18,7 @@ TEXT = {
  "C07": ("model_checking", "CopyFrom with any mix of branch attributes and any prior oneof state: exactly one known non-null branch => that wrapper with that value, none => nil; CopyTo: inactive branches null, active non-null iff payload non-zero; level K: GetOneOfNames / GetOneOfFieldName / GetOneOfTypeName agree for every declaration name.", "6 C07"),
  "C08": ("model_checking", "plan -> CopyFrom -> CopyTo in place for all plans under the property's side conditions: nothing unknown afterwards, known attributes unchanged, list/map null-ness, length and key set kept, decoding again yields the same struct.", "6 C08"),
  "C09": ("model_checking", "two successive in-place CopyTo calls with arbitrary earlier and new struct values, then a third identical call: lengths, elements, key sets, scalar values, pointer-backed null-ness follow the source (children of a nullable embedded message that became nil: null / empty); idempotence by deep equality of the Terraform values.", "6 C09"),
- "C10": ("model_checking", "Level K: GetFlagValue / IsComputed / GetValidators / GetPlanModifiers for all flag sets, maps and the use_state_for_unknown switch; Comment.ToSingleLine against a reference flattening for all printable strings within the bound; rendering of a path-qualified validator / plan-modifier call for all argument strings within the bound (arguments without '[]*'). Level G: the schema of every corpus program (flags, descriptions, validators / plan-modifier counts and which framework modifier, injected fields, placeholder) against the oracle (folded obligations).", "6 C10"),
+ "C10": ("model_checking", "Level K: GetFlagValue / IsComputed / GetValidators / GetPlanModifiers for all flag sets, maps and the use_state_for_unknown switch; Comment.ToSingleLine against a reference flattening for all printable strings within the bound; rendering of a path-qualified validator / plan-modifier call for all argument strings within the bound (arguments without '[]*'). Level G: the schema of every corpus program (flags, descriptions, validators / plan-modifier counts and which framework modifier, injected fields, placeholder) against the oracle (folded obligations). Accompanying (concrete): the real plugin on a descriptor with a message declared inside another message and Inner.field option keys; the schema text carries the flags (nested declarations are otherwise outside the fragment D).", "6 C10"),
  "C11": ("translation_validation", "Differential: for every exclusion / flag variant of P-multi, P-mapopt and P-custom in both key forms the converters generated with and without the option are executed symbolically side by side on the same arbitrary inputs: equal on all remaining attributes/fields, excluded field neither emitted nor written; the variant's schema is walked against the oracle. Level K: an option key affects a field iff it equals its path or its Message.Field key; validators / plan modifiers: path first, then Message.Field, then the default.", "6 C11"),
  "C12": ("translation_validation", "Differential: the three functions of a selected type generated alone vs together with other selected types / with an extra message / with an extra dependency file are equivalent on all inputs within the bounds; level K: Plugin.write emits exactly the root messages, RegisterMessage appends. The set of emitted functions per `types` selection (18 selections, incl. types embedded in or nested below other selected types) is observed on the real plugin (concrete, accompanying). The text of a type's three functions with and without other selected types (9 cases, incl. a message imported from a dependency file) is compared on the real plugin's output (concrete, accompanying).", "6 C12"),
  "C13": ("translation_validation", "Differential: same-package generation vs generation into a separate target package over the same struct package (struct package named by its import path, or by a bare alias + import_path_overrides; with and without a go_package option), equivalent on all inputs within the bounds, for programs with cast types, enums, oneof wrappers, embedded and map-of-message types; a variant whose file lacks a compared function is a violation. Level K: package qualification of types for all names / paths / modifiers within the string bound. A separate-package file that does not type-check in its package, while the same-package variant of the same descriptor does, is a violation.", "6 C13"),
